@@ -34,6 +34,8 @@ def make_monitors():
 
 
 class SwitchOpGen(OpGen):
+    scenarios = ("stale",)
+
     def gen_features(self, tracks):
         rng = self.rng
         tk, lk = tracks.features.tracklet_key, tracks.features.lineage_key
